@@ -18,6 +18,7 @@ structure ObsThread where
   depth : Nat
   w : String            -- "f" | "r" | "s"
   hasErr : Bool := false
+  errDataJson : Bool := true
   atGlobal : Bool := false
   locals : List Str := []
 
@@ -32,11 +33,14 @@ def parseNames (s : String) : Option (List Str) :=
 def parseThread (s : String) : Option ObsThread :=
   match s.splitOn "." with
   | [t, d, "f"] => do some { tid := ← t.toNat?, depth := ← d.toNat?, w := "f" }
-  | [t, d, "r"] => do some { tid := ← t.toNat?, depth := ← d.toNat?, w := "r" }
+  | [t, d, w] =>
+    match w.toList with
+    | ['r', e, j] => do some { tid := ← t.toNat?, depth := ← d.toNat?, w := "r", hasErr := e = '1', errDataJson := j = '1' }
+    | _ => none
   | [t, d, w, ls] =>
     match w.toList with
-    | ['s', e, g] => do
-      some { tid := ← t.toNat?, depth := ← d.toNat?, w := "s", hasErr := e = '1', atGlobal := g = '1',
+    | ['s', e, g, j] => do
+      some { tid := ← t.toNat?, depth := ← d.toNat?, w := "s", hasErr := e = '1', atGlobal := g = '1', errDataJson := j = '1',
              locals := ← parseNames ls }
     | _ => none
   | _ => none
@@ -64,8 +68,9 @@ def looksLike (s : DbgState) (t : ObsThread) : Bool :=
     match s.istates.lookup t.tid with
     | none => t.w == "f"
     | some is =>
-      if is.running then t.w == "r"
-      else t.w == "s" && is.hasErr == t.hasErr && is.atGlobal == t.atGlobal && sameSet is.locals t.locals
+      if is.running then t.w == "r" && is.hasErr == t.hasErr && (is.errDataJson == t.errDataJson || !t.hasErr)
+      else t.w == "s" && is.hasErr == t.hasErr && (is.errDataJson == t.errDataJson || !t.hasErr) &&
+        is.atGlobal == t.atGlobal && sameSet is.locals t.locals
 
 def sync (s : DbgState) (o : Obs) (initial : Bool := false) : Except String DbgState := do
   let mut s := s
@@ -81,9 +86,9 @@ def sync (s : DbgState) (o : Obs) (initial : Bool := false) : Except String DbgS
       let w ← (match t.w with
         | "f" => pure Watch.free
         | "r" => match s.istates.lookup t.tid with
-          | some is => pure (Watch.running is.cmd)
+          | some is => pure (Watch.running is.cmd t.hasErr t.errDataJson)
           | none => throw s!"BAD-EVENT thread {t.tid} interrogated and running without having been suspended"
-        | _ => pure (Watch.suspended t.hasErr t.atGlobal t.locals) : Except String Watch)
+        | _ => pure (Watch.suspended t.hasErr t.errDataJson t.atGlobal t.locals) : Except String Watch)
       s ← apply! s (.advance t.tid t.depth w) s!"advance {t.tid}"
       moved := true
   for p in s.stacks do
@@ -100,6 +105,7 @@ def sync (s : DbgState) (o : Obs) (initial : Bool := false) : Except String DbgS
 def className : Reply → String
   | .ok _ => "ok"
   | .error => "error"
+  | .notJson => "NOJSON"
   | .panic _ => "PANIC"
   | .deadlock => "HANG"
 
@@ -127,7 +133,12 @@ def runModel (pathOk : Bool) (gs : Bool) (o0 : Obs) (steps : List Step) : String
       let env : Env := { evalOk := fun _ => st.bit, setPathOk := fun _ _ => pathOk }
       let (s', r) := handle env s st.line
       s := s'
-      classes := classes ++ [className r]
+      -- Scope.SetValue on a container path is C05's domain: ok and error are not told apart
+      let dotted := match fields st.line with
+        | c :: _ :: v :: _ :: _ => c == str "inject" && v.contains 46
+        | _ => false
+      let cl := className r
+      classes := classes ++ [if dotted && (cl == "ok" || cl == "error") then "E" else cl]
     match st.obs with
     | none => pure ()
     | some o =>
@@ -139,19 +150,39 @@ def runModel (pathOk : Bool) (gs : Bool) (o0 : Obs) (steps : List Step) : String
   let (_, r) := handle env s (str "status")
   return (if classes.isEmpty then "-" else ",".intercalate classes) ++ " " ++ className r
 
+/-- the concurrent kind: `cont` from one goroutine, `break`/`rmbreak` from another. Every command
+    runs under the debugger's lock, so any interleaving is a sequence of `handle` steps: each
+    reply is ok and `status` answers. -/
+def runConc : String := Id.run do
+  let env : Env := { evalOk := fun _ => false, setPathOk := fun _ _ => true }
+  let s0 := init true []
+  let s1 := (applyEvent s0 (.start 1)).getD s0
+  let s2 := (applyEvent s1 (.advance 1 0 (.suspended false true true []))).getD s1
+  let mut s := s2
+  let mut ok := true
+  for l in ["cont 1 stepin", "break prog:900", "rmbreak prog:900", "cont 1 stepin"] do
+    let (s', r) := handle env s (str l)
+    s := s'
+    if className r != "ok" then ok := false
+    -- the thread stops again on the next line
+    s := (applyEvent s (.advance 1 0 (.suspended false true true []))).getD s
+  let (_, r) := handle env s (str "status")
+  return (if ok then "ok" else "not-ok") ++ " " ++ className r
+
 def runCase (payload : String) : String :=
   match payload.splitOn " " with
+  | "conc" :: _ => runConc ++ "\tnt=1"
+  | _ :: _ :: "?" :: _ => "RECORD-TIMEOUT"
   | _scn :: gs :: o0 :: steps =>
     match parseObs o0, steps.mapM parseStep with
     | some o0, some steps =>
       let a := runModel true (gs = "1") o0 steps
-      let b := runModel false (gs = "1") o0 steps
       let nt := match steps.getLast? with
         | some st => match (fields st.line).head? with
           | some c => (lookupCmd c).isSome
           | none => false
         | none => false
-      a ++ (if a = b then "" else "\tspec=" ++ b) ++ (if nt then "\tnt=1" else "")
+      a ++ (if nt then "\tnt=1" else "")
     | _, _ => "bad-payload"
   | _ => "bad-payload"
 
